@@ -289,22 +289,25 @@ HOOKS = ("pre_execute", "on_error", "post_execute", "post_save")
 
 
 def make_middleware(lab: Lab, idx: int, overridden: Dict[str, str], replace_message: bool = False,
-                    raising: Optional[str] = None) -> Any:
-    """overridden: hook name -> 'sync' | 'async' (suspends on a gate)."""
+                    raising: Optional[str] = None, base: Any = None) -> Any:
+    """overridden: hook name -> 'sync' | 'async' (suspends on a gate).
+    base: another recording middleware (instance) whose class becomes the parent class, so that its hooks are inherited
+    through an intermediate base; every hook records the index of the *instance* it runs on."""
     from taskiq.abc.middleware import TaskiqMiddleware
 
     ns: Dict[str, Any] = {}
 
     def mk(hook: str, kind: str) -> Any:
         def body(self: Any, message: Any, *rest: Any) -> Any:
-            lab.rec("hook", idx, hook, message.task_id, message, *rest)
+            me = self._vt_idx
+            lab.rec("hook", me, hook, message.task_id, message, *rest)
             if raising == hook:
-                raise RuntimeError(f"hook {hook} of middleware {idx} failed")
+                raise RuntimeError(f"hook {hook} of middleware {me} failed")
             if hook in ("pre_execute", "pre_send"):
                 if replace_message:
-                    return message.model_copy(update={"labels": {**message.labels, f"seen_by_{idx}": hook}})
+                    return message.model_copy(update={"labels": {**message.labels, f"seen_by_{me}": hook}})
                 return message
-            lab.rec("hook_end", idx, hook, message.task_id)
+            lab.rec("hook_end", me, hook, message.task_id)
             return None
 
         if kind == "sync":
@@ -314,8 +317,8 @@ def make_middleware(lab: Lab, idx: int, overridden: Dict[str, str], replace_mess
             # a plain function that returns an already scheduled Task: a legal awaitable result of a hook
             def fbody(self: Any, message: Any, *rest: Any) -> Any:
                 async def later() -> Any:
-                    lab.rec("hook_begin", idx, hook, message.task_id)
-                    await lab.gate(f"hookf:{idx}:{hook}:{message.task_id}")
+                    lab.rec("hook_begin", self._vt_idx, hook, message.task_id)
+                    await lab.gate(f"hookf:{self._vt_idx}:{hook}:{message.task_id}")
                     return body(self, message, *rest)
 
                 return asyncio.ensure_future(later())
@@ -323,13 +326,15 @@ def make_middleware(lab: Lab, idx: int, overridden: Dict[str, str], replace_mess
             return fbody
 
         async def abody(self: Any, message: Any, *rest: Any) -> Any:
-            lab.rec("hook_begin", idx, hook, message.task_id)
-            await lab.gate(f"hook:{idx}:{hook}:{message.task_id}")
+            lab.rec("hook_begin", self._vt_idx, hook, message.task_id)
+            await lab.gate(f"hook:{self._vt_idx}:{hook}:{message.task_id}")
             return body(self, message, *rest)
 
         return abody
 
     for hook, kind in overridden.items():
         ns[hook] = mk(hook, kind)
-    cls = type(f"M{idx}", (TaskiqMiddleware,), ns)
-    return cls()
+    cls = type(f"M{idx}", (TaskiqMiddleware if base is None else type(base),), ns)
+    inst = cls()
+    inst._vt_idx = idx
+    return inst
